@@ -131,4 +131,70 @@ func childCloseFanout(b run.Batch, r *ev.Result, rng *rand.Rand) {
 			return
 		}
 	}
+	if w.failed {
+		return
+	}
+	// ---- the same with the forwarding of a NEW EQUIPMENT authorization to a listed peer that never answers
+	if err := w.Start(); err != nil {
+		r.Inconc("restart: " + err.Error())
+		return
+	}
+	w.born = time.Now()
+	silent, port, err := startSilentPeer()
+	if err != nil {
+		r.Inconc(err.Error())
+		return
+	}
+	srv := refenc.AuthServer{Pub: refenc.GenKey(rng).Pub, Location: "127.0.0.1", HTTP: port, TCP: 1, UDP: 2}.Signed(w.GCAk.Priv)
+	base := fmt.Sprintf("http://127.0.0.1:%d", w.HTTP)
+	go func() {
+		if resp, err := bg.Post(base+"/api/v1/authorized-servers", "application/json", bytes.NewReader(srv.JSON())); err == nil {
+			resp.Body.Close()
+		}
+	}()
+	listed := false
+	for i := 0; i < 400 && !listed; i++ {
+		if _, l, err := w.AuthorizedServers(); err == nil {
+			for _, s := range l {
+				listed = listed || s.Pub == srv.Pub
+			}
+		}
+		if !listed {
+			time.Sleep(5 * time.Millisecond)
+		}
+	}
+	if !listed {
+		r.Inconc("the silent peer never appeared in the list")
+		silent.release()
+		return
+	}
+	k := refenc.GenKey(rng)
+	auth := refenc.Auth{ID: uint32(900000 + rng.Intn(1000)), Pub: k.Pub, Lat: 1, Long: 2, Capacity: 1000, Debt: 1, Expiration: 4000000000, Fee: 1}.Signed(w.GCAk.Priv)
+	run.Op("POST /authorize-equipment for a new device while the listed peer on port %d never answers, then Close()", port)
+	go func() {
+		if resp, err := bg.Post(base+"/api/v1/authorize-equipment", "application/json", bytes.NewReader(auth.JSON())); err == nil {
+			resp.Body.Close()
+		}
+	}()
+	known := false
+	for i := 0; i < 400 && !known; i++ {
+		if _, eq, err := w.Equipment(); err == nil {
+			_, known = eq[auth.ID]
+		}
+		if !known {
+			time.Sleep(5 * time.Millisecond)
+		}
+	}
+	if !known {
+		r.Inconc("the new device never appeared in the equipment list")
+		silent.release()
+		return
+	}
+	time.Sleep(100 * time.Millisecond) // lets the forwarding reach the peer
+	r.Eval(1)
+	r.Count("inputs.close_during_equipment_forward", 1)
+	r.Count("inputs.http", 1)
+	r.Nontrivial("closefanout/equipment-forward")
+	w.closeJudged("POST /authorize-equipment being forwarded to a silent peer", nil, "an equipment authorization still being forwarded to a silent peer")
+	silent.release()
 }
